@@ -26,12 +26,12 @@ def run(ctx):
     def once():
         trace = ctx.drive(["c08"])
         events = vlib.read_ndjson(trace)
-        verdicts = ctx.judge("Trace_C08", trace)
+        verdicts = ctx.judge("Trace_C08", trace, parallel=12, xmx="3g", timeout=3000)     # every event is judged on its own
         parts = [(events, verdicts)]
         # configurations: the tables are built at package initialisation; they must not depend on GOMAXPROCS
         for procs in (PROCS_THOROUGH if ctx.thorough else PROCS_QUICK):
             t = ctx.drive(["c08", "-mode", "procs"], out_name="c08-procs%d.ndjson" % procs, env_extra={"GOMAXPROCS": str(procs)})
-            parts.append((vlib.read_ndjson(t), ctx.judge("Trace_C08", t)))
+            parts.append((vlib.read_ndjson(t), ctx.judge("Trace_C08", t, parallel=4, xmx="3g")))
         ctx.extra["gomaxprocs_values"] = [16] + list(PROCS_THOROUGH if ctx.thorough else PROCS_QUICK)
         return archive.combine(*parts)
 
